@@ -209,6 +209,9 @@ class PandasSchemaBackend(BaseSchemaBackend):
         from pandera.api.pandas.components import Index
 
         errors = error_handler.schema_errors
+        # all failure cases refer to the rows of the object that was
+        # validated, so compute every mask before dropping anything
+        valid_rows = pd.Series(True, index=range(len(check_obj.index)))
         for err in errors:
             index_values = err.failure_cases["index"]
             if isinstance(err.schema, Index):
@@ -230,6 +233,6 @@ class PandasSchemaBackend(BaseSchemaBackend):
             else:
                 mask = ~check_obj.index.isin(index_values)
 
-            check_obj = check_obj.loc[mask]
+            valid_rows = valid_rows & mask
 
-        return check_obj
+        return check_obj.loc[valid_rows.to_numpy()]
